@@ -18,8 +18,6 @@ Definition agree (k : case) : bool :=
       (* character level: the regex model's scan of the text is the line list (statements by pass), and the reader model run
          on the text itself gives the recorded result *)
       && bool_decide (bench_scan text = by_pass ls) && bool_decide (bench_read_text name text = obs)
-      (* C15_scan_canonical_full on this line list: the scans recover it from its canonical rendering *)
-      && (if wfb ls then bool_decide (scan_codes (render ls) = by_pass ls) else true)
       (* the closed form the theorems are stated over is what the mirrored reader computes *)
       && (if wfb ls then bool_decide (bench_read name ls = Ok (bench_closed name ls)) else true)
   | CRound C ord wtext wobs robs =>
